@@ -874,3 +874,575 @@ Proof.
     + cbn [do_step]. rewrite E, Sh2. rewrite fail_write_eq, lock_after_fail. reflexivity.
   - cbn [fold_left]. fold (run s2 [LockShut; Drain; LockShut]). now apply finish_from_ownshut.
 Qed.
+
+(** ** single steps seen through the projections the scenarios observe *)
+Definition glob_rd (s s' : st) (r : rphase) : Prop :=
+  s_kind s' = s_kind s /\ s_rd s' = r /\ s_shut s' = s_shut s /\ s_gstop s' = s_gstop s /\
+  s_lock s' = s_lock s /\ s_sub s' = s_sub s /\ s_nrecv s' = s_nrecv s.
+Definition glob_eq (s s' : st) : Prop := glob_rd s s' (s_rd s).
+Definition upd1 (s s' : st) (c : N) (v : cst) : Prop :=
+  stof s' c = v /\ forall c', c' <> c -> stof s' c' = stof s c'.
+Definition same_cs (s s' : st) : Prop := forall c, stof s' c = stof s c.
+
+Lemma glob_eq_refl s : glob_eq s s.
+Proof. unfold glob_eq, glob_rd. tauto. Qed.
+
+Lemma glob_rd_trans s s1 s2 r1 r2 : glob_rd s s1 r1 -> glob_rd s1 s2 r2 -> glob_rd s s2 r2.
+Proof. unfold glob_rd. intros (a&b&c&d&e&f&g) (a'&b'&c'&d'&e'&f'&g'). repeat split; congruence. Qed.
+
+Lemma glob_eq_trans s s1 s2 : glob_eq s s1 -> glob_eq s1 s2 -> glob_eq s s2.
+Proof. unfold glob_eq. intros H1 H2. destruct H1 as (a&b&c). rewrite <- b. eapply glob_rd_trans; [|exact H2].
+  unfold glob_rd. tauto. Qed.
+
+Lemma upd1_trans s s1 s2 c v1 v2 : upd1 s s1 c v1 -> upd1 s1 s2 c v2 -> upd1 s s2 c v2.
+Proof. intros [a b] [a' b']. split; [assumption|]. intros c' H. rewrite (b' c' H). now apply b. Qed.
+
+Lemma upd1_same s s1 s2 c v : upd1 s s1 c v -> same_cs s1 s2 -> upd1 s s2 c v.
+Proof. intros [a b] H. split; [now rewrite H|]. intros c' Hc. rewrite H. now apply b. Qed.
+
+Lemma same_upd1 s s1 s2 c v : same_cs s s1 -> upd1 s1 s2 c v -> upd1 s s2 c v.
+Proof. intros H [a b]. split; [assumption|]. intros c' Hc. rewrite (b c' Hc). apply H. Qed.
+
+Ltac globs := unfold glob_eq, glob_rd; cbn [set_next set_pc set_rd set_shut set_gstop set_lock set_sub set_nrecv
+  s_kind s_rd s_shut s_gstop s_lock s_sub s_nrecv s_cs s_pending s_next]; repeat split; try reflexivity; try congruence.
+
+Ltac upds := unfold upd1, stof; cbn [set_next set_pc set_rd set_shut set_gstop set_lock set_sub set_nrecv
+  s_kind s_rd s_shut s_gstop s_lock s_sub s_nrecv s_cs s_pending s_next];
+  split; [apply cget_cset_same | intros ? ?; now apply cget_cset_other].
+
+Lemma p_register s c : stof s c = CNone ->
+  glob_eq s (do_step s (Register c)) /\ upd1 s (do_step s (Register c)) c (CReg (s_next s) None).
+Proof. intros E. cbn [do_step]. rewrite E. split; [globs | upds]. Qed.
+
+Lemma p_write_ok s c id : stof s c = CReg id None -> s_lock s = None -> s_shut s = false ->
+  glob_eq s (do_step s (Write c)) /\ upd1 s (do_step s (Write c)) c (CWait id).
+Proof. intros E L Sh. cbn [do_step]. unfold lock_free. rewrite E, L, Sh. unfold written. split; [globs | upds]. Qed.
+
+Lemma p_own_fail_cs s c id g : upd1 s (fail_write s c id g) c (CDone id RConn) \/ s_kind s = KAsync /\ g = true.
+Proof.
+  rewrite fail_write_eq. unfold after_fail, own_fail. cbn [set_pc s_kind].
+  destruct (s_kind s) eqn:K; [left; upds | destruct g; [right; tauto | left; upds] | left; upds].
+Qed.
+
+Lemma p_write_fail s c id mb : stof s c = CReg id mb -> s_lock s = None -> s_shut s = true ->
+  glob_eq s (do_step s (Write c)) /\ upd1 s (do_step s (Write c)) c (CDone id RConn).
+Proof.
+  intros E L Sh. cbn [do_step]. unfold lock_free. rewrite E, L, Sh. split.
+  - rewrite fail_write_eq. unfold after_fail, own_fail. cbn [set_pc s_kind]. destruct (s_kind s) eqn:K; globs.
+  - destruct (p_own_fail_cs s c id false) as [H|[_ H]]; [exact H | discriminate].
+Qed.
+
+Lemma p_tfire s c id : stof s c = CWait id ->
+  glob_eq s (do_step s (TFire c)) /\ upd1 s (do_step s (TFire c)) c (CFired id).
+Proof. intros E. cbn [do_step]. rewrite E. split; [globs | upds]. Qed.
+
+Lemma p_tremove s c id : stof s c = CFired id ->
+  glob_eq s (do_step s (TRemove c)) /\ upd1 s (do_step s (TRemove c)) c (CDone id RTimeout).
+Proof. intros E. cbn [do_step]. rewrite E. split; [globs | upds]. Qed.
+
+Lemma p_cancel s c id : s_kind s <> KTcp -> stof s c = CWait id ->
+  glob_eq s (do_step s (Cancel c)) /\ upd1 s (do_step s (Cancel c)) c (CDone id RCancelled).
+Proof. intros K E. cbn [do_step]. destruct (s_kind s) eqn:K2; [congruence| |]; rewrite E; (split; [globs | upds]). Qed.
+
+Lemma p_noop_done s c id r e :
+  stof s c = CDone id r ->
+  match e with Register c' | Write c' | TFire c' | TRemove c' | Cancel c' | WStall c' | WStallEnd c' | WriteEnvFail c' => c' = c | _ => False end ->
+  do_step s e = s.
+Proof.
+  intros E H. destruct e; try contradiction; subst; cbn [do_step]; rewrite E; try reflexivity.
+  destruct (s_kind s); reflexivity.
+Qed.
+
+Lemma p_take_some s id c : s_rd s = RAlive -> pfind (s_pending s) id = Some c ->
+  glob_rd s (do_step s (RTake id)) (RHold (Some c)) /\ same_cs s (do_step s (RTake id)).
+Proof. intros R F. cbn [do_step]. rewrite R, F. split; [globs | intros c'; reflexivity]. Qed.
+
+Lemma p_take_none s id : s_rd s = RAlive -> pfind (s_pending s) id = None ->
+  glob_rd s (do_step s (RTake id)) (RHold None) /\ same_cs s (do_step s (RTake id)).
+Proof. intros R F. cbn [do_step]. rewrite R, F. split; [globs | intros c'; reflexivity]. Qed.
+
+Lemma p_deliver_some s c : s_rd s = RHold (Some c) ->
+  glob_rd s (do_step s RDeliver) RAlive /\ upd1 s (do_step s RDeliver) c (deliver_st (stof s c) ROk).
+Proof. intros R. cbn [do_step]. rewrite R. unfold cdeliver. split; [globs | upds]. Qed.
+
+Lemma p_deliver_none s : s_rd s = RHold None ->
+  glob_rd s (do_step s RDeliver) RAlive /\ same_cs s (do_step s RDeliver).
+Proof. intros R. cbn [do_step]. rewrite R. split; [globs | intros c'; reflexivity]. Qed.
+
+(** where the entry of a caller is *)
+Lemma pfind_waiting s c id : inv s -> (forall o, s_rd s <> RHold o) -> stof s c = CWait id -> pfind (s_pending s) id = Some c.
+Proof.
+  intros I R E. assert (Hn : needs_entry (stof s c)) by (rewrite E; exact Logic.I).
+  destruct (i_open s I c Hn) as [H|H]; [exfalso; eapply R; eauto|].
+  rewrite E in H. apply in_pfind; [apply (i_nodup s I) | exact H].
+Qed.
+
+Lemma pfind_owner s c id c' : inv s -> stof s c <> CNone -> id_of (stof s c) = id -> pfind (s_pending s) id = Some c' -> c' = c.
+Proof.
+  intros I Hc Hid F. apply pfind_in in F. destruct (i_entry s I id c' F) as [H1 _].
+  symmetry. apply (i_uniq s I c c' Hc). congruence.
+Qed.
+
+Lemma pfind_zero s : inv s -> pfind (s_pending s) 0 = None.
+Proof.
+  intros I. apply pfind_none. intros c Hin. destruct (i_entry s I 0 c Hin) as [H1 H2].
+  assert (Hc : stof s c <> CNone) by (intros E; rewrite E in H2; exact H2).
+  pose proof (i_ids s I c Hc). lia.
+Qed.
+
+(** a response for caller [c] (whatever its state) while the reader is alive:
+    taken and delivered; only [c] can change, and only by [deliver_st] *)
+Lemma p_respond s c : inv s -> s_rd s = RAlive -> stof s c <> CNone ->
+  let s' := run s [RTake (id_of (stof s c)); RDeliver] in
+  glob_eq s s' /\ (upd1 s s' c (deliver_st (stof s c) ROk) \/ same_cs s s').
+Proof.
+  intros I R Hc. cbn zeta. cbn [run fold_left].
+  destruct (pfind (s_pending s) (id_of (stof s c))) as [c'|] eqn:F.
+  - assert (c' = c) by (eapply pfind_owner; eauto). subst c'.
+    destruct (p_take_some s _ c R F) as [G1 S1].
+    assert (R1 : s_rd (do_step s (RTake (id_of (stof s c)))) = RHold (Some c)) by apply G1.
+    destruct (p_deliver_some _ c R1) as [G2 U2]. split.
+    + unfold glob_eq. rewrite R. eapply glob_rd_trans; eauto.
+    + left. rewrite (S1 c) in U2. eapply same_upd1; eauto.
+  - destruct (p_take_none s _ R F) as [G1 S1].
+    assert (R1 : s_rd (do_step s (RTake (id_of (stof s c)))) = RHold None) by apply G1.
+    destruct (p_deliver_none _ R1) as [G2 S2]. split.
+    + unfold glob_eq. rewrite R. eapply glob_rd_trans; eauto.
+    + right. intros c0. rewrite S2. apply S1.
+Qed.
+
+(** ** the model refines the scenario specification *)
+Definition cls (r : res) : oclass :=
+  match r with ROk => OOk | RTimeout => OTimeout | RConn => OConn | RCancelled => OCancelled end.
+
+Definition crel (stalled : bool) (ph : phase) (v : pst) (w : cst) : Prop :=
+  match v with
+  | PNone => w = CNone
+  | PFlight kn =>
+      (exists id, w = CWait id)
+      \/ (stalled = true /\ ph = PhLive /\ kn = false /\ exists id, w = CStall id None)
+      \/ (stalled = true /\ ph = PhWindow /\ exists id, w = CDone id RConn)
+  | PFin _ l => exists id r, w = CDone id r /\ In (cls r) l
+  end.
+
+Definition sub_of (k : case) (ph : phase) : sstate :=
+  if k_sub k then (match ph with PhLive => SSub | _ => SEnded end) else SNone.
+
+Record sim (k : case) (p : spst) (x : xst) : Prop := mkSim {
+  m_inv : inv (x_s x);
+  m_kind : s_kind (x_s x) = k_kind k;
+  m_faulted : x_faulted x = match p_phase p with PhDead => true | _ => false end;
+  m_subq : x_subq x = p_subq p;
+  m_resid : x_resid x = repeat false (p_nprobe p);
+  m_nn : s_nrecv (x_s x) = p_nn p;
+  m_sub : s_sub (x_s x) = sub_of k (p_phase p);
+  m_phase : match p_phase p with
+            | PhLive => s_rd (x_s x) = RAlive /\ s_shut (x_s x) = false /\ (p_stalled p = false -> s_lock (x_s x) = None)
+            | PhWindow => s_rd (x_s x) = (if is_tcp (k_kind k) then RShutDone else ROwnShut) /\
+                          s_shut (x_s x) = true /\ s_lock (x_s x) = None
+            | PhDead => s_rd (x_s x) = RDead /\ s_shut (x_s x) = true /\ s_lock (x_s x) = None
+            end;
+  m_cs : forall c, crel (p_stalled p) (p_phase p) (pget (p_cs p) c) (stof (x_s x) c)
+}.
+
+Lemma pget_pset l c v c' : pget (pset l c v) c' = if c' =? c then v else pget l c'.
+Proof.
+  induction l as [|[c0 v0] l IH]; cbn [pset pget].
+  - rewrite (N.eqb_sym c c'). reflexivity.
+  - destruct (c0 =? c) eqn:E; cbn [pget].
+    + apply N.eqb_eq in E; subst c0. rewrite (N.eqb_sym c c'). destruct (c' =? c); reflexivity.
+    + destruct (c0 =? c') eqn:E2; [|exact IH].
+      apply N.eqb_eq in E2; subst c0. rewrite E. reflexivity.
+Qed.
+
+Lemma pget_fail_flights l c :
+  pget (fail_flights l) c = match pget l c with PFlight kn => PFin kn [OConn] | v => v end.
+Proof.
+  induction l as [|[c0 v0] l IH]; cbn [fail_flights map pget]; [reflexivity|].
+  destruct v0; cbn [snd fst pget]; destruct (c0 =? c); auto.
+Qed.
+
+(** the specification state after an event differs from [p] only in the caller
+    table (and in bookkeeping the relation does not look at) *)
+Definition sp_like (p p' : spst) (cs' : list (N * pst)) : Prop :=
+  p_phase p' = p_phase p /\ p_stalled p' = p_stalled p /\ p_cs p' = cs' /\
+  p_subq p' = p_subq p /\ p_nn p' = p_nn p /\ p_nprobe p' = p_nprobe p.
+
+Lemma sp_like_cs p cs' : sp_like p (sp_cs p cs') cs'.
+Proof. unfold sp_like. cbn. tauto. Qed.
+
+Lemma sim_upd k p p' x c v' s' w' :
+  sim k p x -> sp_like p p' (pset (p_cs p) c v') ->
+  inv s' -> glob_eq (x_s x) s' -> upd1 (x_s x) s' c w' ->
+  crel (p_stalled p) (p_phase p) v' w' ->
+  sim k p' (mkX s' (x_faulted x) (x_subq x) (x_resid x)).
+Proof.
+  intros M (L1&L2&L3&L4&L5&L6) I (G1&G2&G3&G4&G5&G6&G7) [U1 U2] C.
+  destruct M as [a b c0 d e f g h i].
+  constructor; cbn [x_s x_faulted x_subq x_resid]; rewrite ?L1, ?L2, ?L3, ?L4, ?L5, ?L6; try congruence.
+  - destruct (p_phase p); rewrite ?G2, ?G3, ?G5; exact h.
+  - intros c'. rewrite pget_pset. destruct (c' =? c) eqn:E.
+    + apply N.eqb_eq in E; subst c'. rewrite U1. exact C.
+    + apply N.eqb_neq in E. rewrite (U2 c' E). apply i.
+Qed.
+
+Lemma sim_same k p p' x s' :
+  sim k p x -> sp_like p p' (p_cs p) -> inv s' -> glob_eq (x_s x) s' -> same_cs (x_s x) s' ->
+  sim k p' (mkX s' (x_faulted x) (x_subq x) (x_resid x)).
+Proof.
+  intros M (L1&L2&L3&L4&L5&L6) I (G1&G2&G3&G4&G5&G6&G7) S.
+  destruct M as [a b c0 d e f g h i].
+  constructor; cbn [x_s x_faulted x_subq x_resid]; rewrite ?L1, ?L2, ?L3, ?L4, ?L5, ?L6; try congruence.
+  - destruct (p_phase p); rewrite ?G2, ?G3, ?G5; exact h.
+  - intros c'. rewrite S. apply i.
+Qed.
+
+Lemma sp_like_refl p : sp_like p p (p_cs p).
+Proof. unfold sp_like. tauto. Qed.
+
+(** *** starting a call *)
+Lemma start_live s c :
+  inv s -> stof s c = CNone -> s_lock s = None -> s_shut s = false ->
+  let s' := run s [Register c; Write c] in
+  glob_eq s s' /\ upd1 s s' c (CWait (s_next s)).
+Proof.
+  intros I E L Sh. cbn zeta. cbn [run fold_left].
+  destruct (p_register s c E) as [G1 U1].
+  set (s1 := do_step s (Register c)) in *.
+  destruct G1 as (a&b&c0&d&e&f&g).
+  assert (E1 : stof s1 c = CReg (s_next s) None) by apply U1.
+  destruct (p_write_ok s1 c _ E1 ltac:(congruence) ltac:(congruence)) as [G2 U2].
+  split; [eapply glob_eq_trans; [|exact G2]; unfold glob_eq, glob_rd; tauto | eapply upd1_trans; eauto].
+Qed.
+
+Lemma start_shut s c :
+  inv s -> stof s c = CNone -> s_lock s = None -> s_shut s = true ->
+  let s' := run s [Register c; Write c] in
+  glob_eq s s' /\ upd1 s s' c (CDone (s_next s) RConn).
+Proof.
+  intros I E L Sh. cbn zeta. cbn [run fold_left].
+  destruct (p_register s c E) as [G1 U1].
+  set (s1 := do_step s (Register c)) in *.
+  destruct G1 as (a&b&c0&d&e&f&g).
+  assert (E1 : stof s1 c = CReg (s_next s) None) by apply U1.
+  destruct (p_write_fail s1 c _ _ E1 ltac:(congruence) ltac:(congruence)) as [G2 U2].
+  split; [eapply glob_eq_trans; [|exact G2]; unfold glob_eq, glob_rd; tauto | eapply upd1_trans; eauto].
+Qed.
+
+Lemma run_app s l1 l2 : run s (l1 ++ l2) = run (run s l1) l2.
+Proof. unfold run. apply fold_left_app. Qed.
+
+Lemma expire_tail s c id :
+  stof s c = CWait id ->
+  let s' := run s [TFire c; TRemove c] in glob_eq s s' /\ upd1 s s' c (CDone id RTimeout).
+Proof.
+  intros E. cbn zeta. cbn [run fold_left].
+  destruct (p_tfire s c id E) as [G1 U1]. set (s1 := do_step s (TFire c)) in *.
+  destruct (p_tremove s1 c id (proj1 U1)) as [G2 U2].
+  split; [eapply glob_eq_trans; eauto | eapply upd1_trans; eauto].
+Qed.
+
+Lemma noop_tail s c id r : stof s c = CDone id r -> run s [TFire c; TRemove c] = s.
+Proof.
+  intros E. cbn [run fold_left].
+  rewrite (p_noop_done s c id r (TFire c) E eq_refl). apply (p_noop_done s c id r (TRemove c) E eq_refl).
+Qed.
+
+Lemma respond_waiting s c id :
+  inv s -> s_rd s = RAlive -> stof s c = CWait id ->
+  let s' := run s [RTake id; RDeliver] in glob_eq s s' /\ upd1 s s' c (CDone id ROk).
+Proof.
+  intros I R E. cbn zeta. cbn [run fold_left].
+  assert (F : pfind (s_pending s) id = Some c) by (apply pfind_waiting; [assumption | rewrite R; discriminate | assumption]).
+  destruct (p_take_some s id c R F) as [G1 S1]. set (s1 := do_step s (RTake id)) in *.
+  assert (R1 : s_rd s1 = RHold (Some c)) by apply G1.
+  destruct (p_deliver_some s1 c R1) as [G2 U2]. rewrite (S1 c), E in U2. cbn [deliver_st] in U2.
+  split; [unfold glob_eq; rewrite R; eapply glob_rd_trans; eauto | eapply same_upd1; eauto].
+Qed.
+
+(** a response for a caller that is not waiting any more (timeout fired or
+    already returned) changes no caller *)
+Lemma respond_idle s c :
+  inv s -> s_rd s = RAlive -> (exists id, stof s c = CFired id) \/ (exists id r, stof s c = CDone id r) ->
+  let s' := run s [RTake (id_of (stof s c)); RDeliver] in glob_eq s s' /\ same_cs s s'.
+Proof.
+  intros I R H.
+  assert (Hc : stof s c <> CNone) by (destruct H as [[i H]|[i [r H]]]; rewrite H; congruence).
+  destruct (p_respond s c I R Hc) as [G [U|S]]; split; try assumption.
+  assert (D : deliver_st (stof s c) ROk = stof s c) by (destruct H as [[i H]|[i [r H]]]; rewrite H; reflexivity).
+  rewrite D in U. intros c'. destruct (N.eq_dec c' c) as [->|Hne]; [exact (proj1 U) | exact (proj2 U c' Hne)].
+Qed.
+
+Lemma sp_start_inv n p c kn lf p' : sp_start n p c kn lf = Some p' ->
+  pget (p_cs p) c = PNone /\
+  ((p_phase p = PhLive /\ srv_reads p = true /\
+    p' = sp_cs p (pset (p_cs p) c (match lf with Some l => PFin kn l | None => PFlight kn end)))
+   \/ (p_phase p <> PhLive /\ p' = sp_cs p (pset (p_cs p) c (PFin false [OConn])))).
+Proof.
+  unfold sp_start. destruct (negb (c <? n)); [discriminate|].
+  destruct (pget (p_cs p) c); try discriminate. split; [reflexivity|].
+  destruct (p_phase p) eqn:Ph.
+  - destruct (srv_reads p) eqn:Sr; cbn [negb] in *; [|discriminate]. inversion H; subst. left. tauto.
+  - inversion H; subst. right. split; [discriminate | reflexivity].
+  - inversion H; subst. right. split; [discriminate | reflexivity].
+Qed.
+
+Lemma sim_live k p x : sim k p x -> p_phase p = PhLive ->
+  s_rd (x_s x) = RAlive /\ s_shut (x_s x) = false /\ (p_stalled p = false -> s_lock (x_s x) = None).
+Proof. intros M Ph. pose proof (m_phase k p x M) as H. rewrite Ph in H. exact H. Qed.
+
+Lemma sim_notlive k p x : sim k p x -> p_phase p <> PhLive -> s_shut (x_s x) = true /\ s_lock (x_s x) = None.
+Proof. intros M Ph. pose proof (m_phase k p x M) as H. destruct (p_phase p); [congruence | tauto | tauto]. Qed.
+
+Lemma srv_reads_unstalled p : srv_reads p = true -> p_stalled p = false.
+Proof. unfold srv_reads. destruct (p_stalled p); [discriminate | reflexivity]. Qed.
+
+Lemma sim_none k p x c : sim k p x -> pget (p_cs p) c = PNone -> stof (x_s x) c = CNone.
+Proof. intros M H. pose proof (m_cs k p x M c) as C. rewrite H in C. exact C. Qed.
+
+(** S / T / U *)
+Lemma sim_start k p x c kn p' p'' :
+  sim k p x -> sp_start (k_n k) p c kn None = Some p' -> sp_like p' p'' (p_cs p') ->
+  sim k p'' (on_s x (fun s => run s [Register c; Write c])).
+Proof.
+  intros M Hs Hl. destruct (sp_start_inv _ _ _ _ _ _ Hs) as [Hn [(Ph&Sr&->)|(Ph&->)]].
+  - destruct (sim_live k p x M Ph) as (R&Sh&L). specialize (L (srv_reads_unstalled p Sr)).
+    destruct (start_live (x_s x) c (m_inv k p x M) (sim_none k p x c M Hn) L Sh) as [G U].
+    apply (sim_upd k p p'' x c (PFlight kn) _ (CWait (s_next (x_s x))) M); try assumption.
+    + apply inv_run, (m_inv k p x M).
+    + left. eauto.
+  - destruct (sim_notlive k p x M Ph) as (Sh&L).
+    destruct (start_shut (x_s x) c (m_inv k p x M) (sim_none k p x c M Hn) L Sh) as [G U].
+    apply (sim_upd k p p'' x c (PFin false [OConn]) _ (CDone (s_next (x_s x)) RConn) M); try assumption.
+    + apply inv_run, (m_inv k p x M).
+    + exists (s_next (x_s x)), RConn. split; [reflexivity | now left].
+Qed.
+
+(** X *)
+Lemma sim_expire k p x c p' :
+  sim k p x -> sp_start (k_n k) p c true (Some [OTimeout]) = Some p' ->
+  sim k p' (on_s x (fun s => run s [Register c; Write c; TFire c; TRemove c])).
+Proof.
+  intros M Hs. destruct (sp_start_inv _ _ _ _ _ _ Hs) as [Hn [(Ph&Sr&->)|(Ph&->)]];
+    change [Register c; Write c; TFire c; TRemove c] with ([Register c; Write c] ++ [TFire c; TRemove c]);
+    unfold on_s; rewrite run_app.
+  - destruct (sim_live k p x M Ph) as (R&Sh&L). specialize (L (srv_reads_unstalled p Sr)).
+    destruct (start_live (x_s x) c (m_inv k p x M) (sim_none k p x c M Hn) L Sh) as [G U].
+    destruct (expire_tail _ c _ (proj1 U)) as [G2 U2].
+    eapply sim_upd; try eassumption.
+    + apply sp_like_cs.
+    + rewrite <- run_app. apply inv_run, (m_inv k p x M).
+    + eapply glob_eq_trans; eauto.
+    + eapply upd1_trans; eauto.
+    + exists (s_next (x_s x)), RTimeout. split; [reflexivity | now left].
+  - destruct (sim_notlive k p x M Ph) as (Sh&L).
+    destruct (start_shut (x_s x) c (m_inv k p x M) (sim_none k p x c M Hn) L Sh) as [G U].
+    rewrite (noop_tail _ c _ _ (proj1 U)).
+    eapply sim_upd; try eassumption.
+    + apply sp_like_cs.
+    + apply inv_run, (m_inv k p x M).
+    + exists (s_next (x_s x)), RConn. split; [reflexivity | now left].
+Qed.
+
+(** XA *)
+Lemma sim_expire_a k p x c p' :
+  sim k p x -> p_phase p = PhLive -> sp_start (k_n k) p c true (Some [OTimeout; OOk]) = Some p' ->
+  sim k p' (exec_event x (EExpireA c)).
+Proof.
+  intros M Ph Hs. destruct (sp_start_inv _ _ _ _ _ _ Hs) as [Hn [(_&Sr&->)|(Ph'&_)]]; [|congruence].
+  destruct (sim_live k p x M Ph) as (R&Sh&L). specialize (L (srv_reads_unstalled p Sr)).
+  cbn [exec_event]. unfold on_s.
+  change [Register c; Write c; TFire c] with ([Register c; Write c] ++ [TFire c]). rewrite run_app.
+  destruct (start_live (x_s x) c (m_inv k p x M) (sim_none k p x c M Hn) L Sh) as [G U].
+  set (s1 := run (x_s x) [Register c; Write c]) in *.
+  assert (I1 : inv s1) by apply inv_run, (m_inv k p x M).
+  destruct (p_tfire s1 c _ (proj1 U)) as [G2 U2]. change (run s1 [TFire c]) with (do_step s1 (TFire c)).
+  set (s2 := do_step s1 (TFire c)) in *.
+  assert (I2 : inv s2) by now apply inv_do_step.
+  assert (E2 : stof s2 c = CFired (s_next (x_s x))) by apply U2.
+  assert (R2 : s_rd s2 = RAlive).
+  { destruct G as (_&g&_). destruct G2 as (_&g2&_). congruence. }
+  rewrite E2. cbn [id_of].
+  change [RTake (s_next (x_s x)); RDeliver; TRemove c] with ([RTake (s_next (x_s x)); RDeliver] ++ [TRemove c]).
+  rewrite run_app.
+  pose proof (respond_idle s2 c I2 R2 (or_introl (ex_intro _ _ E2))) as H3. rewrite E2 in H3. cbn [id_of] in H3.
+  destruct H3 as [G3 S3]. set (s3 := run s2 [RTake (s_next (x_s x)); RDeliver]) in *.
+  assert (E3 : stof s3 c = CFired (s_next (x_s x))) by (rewrite S3; exact E2).
+  destruct (p_tremove s3 c _ E3) as [G4 U4]. change (run s3 [TRemove c]) with (do_step s3 (TRemove c)).
+  eapply sim_upd; try eassumption.
+  - apply sp_like_cs.
+  - apply inv_do_step. unfold s3. now apply inv_run.
+  - eapply glob_eq_trans; [exact G|]. eapply glob_eq_trans; [exact G2|]. eapply glob_eq_trans; eauto.
+  - eapply upd1_trans; [exact U|]. eapply upd1_trans; [exact U2|]. eapply same_upd1; eauto.
+  - exists (s_next (x_s x)), RTimeout. split; [reflexivity | now left].
+Qed.
+
+(** XB *)
+Lemma sim_expire_b k p x c p' :
+  sim k p x -> p_phase p = PhLive -> sp_start (k_n k) p c true (Some [OTimeout; OOk]) = Some p' ->
+  sim k p' (exec_event x (EExpireB c)).
+Proof.
+  intros M Ph Hs. destruct (sp_start_inv _ _ _ _ _ _ Hs) as [Hn [(_&Sr&->)|(Ph'&_)]]; [|congruence].
+  destruct (sim_live k p x M Ph) as (R&Sh&L). specialize (L (srv_reads_unstalled p Sr)).
+  cbn [exec_event]. unfold on_s.
+  destruct (start_live (x_s x) c (m_inv k p x M) (sim_none k p x c M Hn) L Sh) as [G U].
+  set (s1 := run (x_s x) [Register c; Write c]) in *.
+  assert (I1 : inv s1) by apply inv_run, (m_inv k p x M).
+  assert (E1 : stof s1 c = CWait (s_next (x_s x))) by apply U.
+  assert (R1 : s_rd s1 = RAlive) by (destruct G as (_&g&_); congruence).
+  rewrite E1. cbn [id_of]. set (n := s_next (x_s x)) in *.
+  assert (F : pfind (s_pending s1) n = Some c) by (apply pfind_waiting; [assumption | rewrite R1; discriminate | assumption]).
+  cbn [run fold_left].
+  destruct (p_take_some s1 n c R1 F) as [G2 S2]. set (s2 := do_step s1 (RTake n)) in *.
+  assert (E2 : stof s2 c = CWait n) by (rewrite S2; exact E1).
+  destruct (p_tfire s2 c n E2) as [G3 U3]. set (s3 := do_step s2 (TFire c)) in *.
+  destruct (p_tremove s3 c n (proj1 U3)) as [G4 U4]. set (s4 := do_step s3 (TRemove c)) in *.
+  assert (R4 : s_rd s4 = RHold (Some c)).
+  { destruct G2 as (_&g2&_). destruct G3 as (_&g3&_). destruct G4 as (_&g4&_). congruence. }
+  destruct (p_deliver_some s4 c R4) as [G5 U5]. rewrite (proj1 U4) in U5. cbn [deliver_st] in U5.
+  apply (sim_upd k p _ x c (PFin true [OTimeout; OOk]) _ (CDone n RTimeout) M).
+  - apply sp_like_cs.
+  - apply inv_do_step. unfold s4. apply inv_do_step. unfold s3. apply inv_do_step. unfold s2. apply inv_do_step. exact I1.
+  - eapply glob_eq_trans; [exact G|]. unfold glob_eq. rewrite R1.
+    eapply glob_rd_trans; [exact G2|]. eapply glob_rd_trans; [exact G3|]. eapply glob_rd_trans; [exact G4|]. exact G5.
+  - eapply upd1_trans; [exact U|]. eapply same_upd1; [exact S2|]. eapply upd1_trans; [exact U3|].
+    eapply upd1_trans; [exact U4|]. exact U5.
+  - exists n, RTimeout. split; [reflexivity | now left].
+Qed.
+
+(** XC *)
+Lemma sim_expire_c k p x c p' :
+  sim k p x -> p_phase p = PhLive -> sp_start (k_n k) p c true (Some [OTimeout; OOk]) = Some p' ->
+  sim k p' (exec_event x (EExpireC c)).
+Proof.
+  intros M Ph Hs. destruct (sp_start_inv _ _ _ _ _ _ Hs) as [Hn [(_&Sr&->)|(Ph'&_)]]; [|congruence].
+  destruct (sim_live k p x M Ph) as (R&Sh&L). specialize (L (srv_reads_unstalled p Sr)).
+  cbn [exec_event]. unfold on_s.
+  change [Register c; Write c; TFire c; TRemove c] with ([Register c; Write c] ++ [TFire c; TRemove c]).
+  rewrite run_app.
+  destruct (start_live (x_s x) c (m_inv k p x M) (sim_none k p x c M Hn) L Sh) as [G U].
+  set (s1 := run (x_s x) [Register c; Write c]) in *.
+  assert (I1 : inv s1) by apply inv_run, (m_inv k p x M).
+  destruct (expire_tail s1 c _ (proj1 U)) as [G2 U2]. set (s2 := run s1 [TFire c; TRemove c]) in *.
+  assert (I2 : inv s2) by now apply inv_run.
+  assert (R2 : s_rd s2 = RAlive) by (destruct G as (_&g&_); destruct G2 as (_&g2&_); congruence).
+  destruct (respond_idle s2 c I2 R2 (or_intror (ex_intro _ _ (ex_intro _ _ (proj1 U2))))) as [G3 S3].
+  apply (sim_upd k p _ x c (PFin true [OTimeout; OOk]) _ (CDone (s_next (x_s x)) RTimeout) M).
+  - apply sp_like_cs.
+  - now apply inv_run.
+  - eapply glob_eq_trans; [exact G|]. eapply glob_eq_trans; eauto.
+  - eapply upd1_trans; [exact U|]. eapply upd1_same; eauto.
+  - exists (s_next (x_s x)), RTimeout. split; [reflexivity | now left].
+Qed.
+
+(** what a call in flight looks like while the connection lives *)
+Lemma flight_live k p x c :
+  sim k p x -> p_phase p = PhLive -> pget (p_cs p) c = PFlight true -> exists id, stof (x_s x) c = CWait id.
+Proof.
+  intros M Ph H. pose proof (m_cs k p x M c) as C. rewrite H, Ph in C. cbn in C.
+  destruct C as [C|[(_&_&C&_)|(_&C&_)]]; [assumption | discriminate | discriminate].
+Qed.
+
+Lemma fin_done k p x c kn l :
+  sim k p x -> pget (p_cs p) c = PFin kn l -> exists id r, stof (x_s x) c = CDone id r /\ In (cls r) l.
+Proof. intros M H. pose proof (m_cs k p x M c) as C. rewrite H in C. exact C. Qed.
+
+(** R *)
+Lemma sim_respond k p x c p' :
+  sim k p x -> spec_step k p (ERespond c) = Some p' -> sim k p' (exec_event x (ERespond c)).
+Proof.
+  intros M Hs. cbn [spec_step] in Hs. destruct (live p) eqn:Lv; cbn [negb] in Hs; [|discriminate].
+  assert (Ph : p_phase p = PhLive) by (unfold live in Lv; destruct (p_phase p); congruence).
+  destruct (sim_live k p x M Ph) as (R&Sh&L).
+  cbn [exec_event]. unfold on_s.
+  destruct (pget (p_cs p) c) as [|[|]|[|] l] eqn:E; try discriminate; inversion Hs; subst p'.
+  - destruct (flight_live k p x c M Ph E) as [id Ew]. rewrite Ew. cbn [id_of].
+    destruct (respond_waiting (x_s x) c id (m_inv k p x M) R Ew) as [G U].
+    apply (sim_upd k p _ x c (PFin true [OOk]) _ (CDone id ROk) M); try assumption.
+    + apply sp_like_cs.
+    + apply inv_run, (m_inv k p x M).
+    + exists id, ROk. split; [reflexivity | now left].
+  - destruct (fin_done k p x c _ _ M E) as (id&r&Ed&_). rewrite Ed. cbn [id_of].
+    rewrite (late_response_noop (x_s x) c id r (m_inv k p x M) R Ed). destruct x; exact M.
+Qed.
+
+(** V *)
+Lemma sim_unknown k p x : sim k p x -> p_phase p = PhLive -> sim k p (exec_event x EUnknown).
+Proof.
+  intros M Ph. destruct (sim_live k p x M Ph) as (R&_).
+  cbn [exec_event]. unfold on_s.
+  rewrite (unknown_response_noop (x_s x) 0 R (pfind_zero _ (m_inv k p x M))). destruct x; exact M.
+Qed.
+
+(** C *)
+Lemma sim_cancel k p x c p' :
+  sim k p x -> spec_step k p (ECancel c) = Some p' -> sim k p' (exec_event x (ECancel c)).
+Proof.
+  intros M Hs. cbn [spec_step] in Hs. destruct (is_tcp (k_kind k)) eqn:T; [discriminate|].
+  assert (K : s_kind (x_s x) <> KTcp) by (rewrite (m_kind k p x M); destruct (k_kind k); [discriminate|congruence|congruence]).
+  cbn [exec_event]. unfold on_s.
+  destruct (pget (p_cs p) c) as [|kn|kn l] eqn:E; try discriminate.
+  pose proof (m_cs k p x M c) as C. rewrite E in C. cbn in C.
+  destruct (p_phase p) eqn:Ph; try discriminate; destruct (p_stalled p) eqn:St; try discriminate; inversion Hs; subst p';
+    (destruct C as [[id C]|[(C&_)|(C&_)]]; [|discriminate|discriminate]);
+    destruct (p_cancel (x_s x) c id K C) as [G U].
+  - apply (sim_upd k p _ x c (PFin kn [OCancelled]) _ (CDone id RCancelled) M); try assumption.
+    + apply sp_like_cs.
+    + apply inv_do_step, (m_inv k p x M).
+    + exists id, RCancelled. split; [reflexivity | now left].
+  - apply (sim_upd k p _ x c (PFin kn [OCancelled; OConn]) _ (CDone id RCancelled) M); try assumption.
+    + apply sp_like_cs.
+    + apply inv_do_step, (m_inv k p x M).
+    + exists id, RCancelled. split; [reflexivity | now left].
+Qed.
+
+(** CB / CC *)
+Lemma sim_cancel_b k p x c p' :
+  sim k p x -> spec_step k p (ECancelB c) = Some p' -> sim k p' (exec_event x (ECancelB c)).
+Proof.
+  intros M Hs. cbn [spec_step] in Hs. destruct (is_tcp (k_kind k)) eqn:T; [discriminate|].
+  destruct (live p) eqn:Lv; cbn [negb orb] in Hs; [|discriminate].
+  assert (Ph : p_phase p = PhLive) by (unfold live in Lv; destruct (p_phase p); congruence).
+  assert (K : s_kind (x_s x) <> KTcp) by (rewrite (m_kind k p x M); destruct (k_kind k); [discriminate|congruence|congruence]).
+  destruct (sim_live k p x M Ph) as (R&Sh&L).
+  destruct (pget (p_cs p) c) as [|[|]|kn l] eqn:E; try discriminate. inversion Hs; subst p'.
+  destruct (flight_live k p x c M Ph E) as [id Ew].
+  cbn [exec_event]. unfold on_s. rewrite Ew. cbn [id_of].
+  assert (F : pfind (s_pending (x_s x)) id = Some c)
+    by (apply pfind_waiting; [apply (m_inv k p x M) | rewrite R; discriminate | assumption]).
+  cbn [run fold_left].
+  destruct (p_take_some (x_s x) id c R F) as [G1 S1]. set (s1 := do_step (x_s x) (RTake id)) in *.
+  assert (K1 : s_kind s1 <> KTcp) by (destruct G1 as (g&_); congruence).
+  assert (E1 : stof s1 c = CWait id) by (rewrite S1; exact Ew).
+  destruct (p_cancel s1 c id K1 E1) as [G2 U2]. set (s2 := do_step s1 (Cancel c)) in *.
+  assert (R2 : s_rd s2 = RHold (Some c)) by (destruct G1 as (_&g1&_); destruct G2 as (_&g2&_); congruence).
+  destruct (p_deliver_some s2 c R2) as [G3 U3]. rewrite (proj1 U2) in U3. cbn [deliver_st] in U3.
+  apply (sim_upd k p _ x c (PFin true [OCancelled]) _ (CDone id RCancelled) M).
+  - apply sp_like_cs.
+  - apply inv_do_step. unfold s2. apply inv_do_step. unfold s1. apply inv_do_step. apply (m_inv k p x M).
+  - unfold glob_eq. rewrite R. eapply glob_rd_trans; [exact G1|]. eapply glob_rd_trans; [exact G2|]. exact G3.
+  - eapply same_upd1; [exact S1|]. eapply upd1_trans; [exact U2|]. exact U3.
+  - exists id, RCancelled. split; [reflexivity | now left].
+Qed.
+
+Lemma sim_cancel_c k p x c p' :
+  sim k p x -> spec_step k p (ECancelC c) = Some p' -> sim k p' (exec_event x (ECancelC c)).
+Proof.
+  intros M Hs. cbn [spec_step] in Hs. destruct (is_tcp (k_kind k)) eqn:T; [discriminate|].
+  destruct (live p) eqn:Lv; cbn [negb orb] in Hs; [|discriminate].
+  assert (Ph : p_phase p = PhLive) by (unfold live in Lv; destruct (p_phase p); congruence).
+  assert (K : s_kind (x_s x) <> KTcp) by (rewrite (m_kind k p x M); destruct (k_kind k); [discriminate|congruence|congruence]).
+  destruct (sim_live k p x M Ph) as (R&Sh&L).
+  destruct (pget (p_cs p) c) as [|[|]|kn l] eqn:E; try discriminate. inversion Hs; subst p'.
+  destruct (flight_live k p x c M Ph E) as [id Ew].
+  cbn [exec_event]. unfold on_s. rewrite Ew. cbn [id_of].
+  change [Cancel c; RTake id; RDeliver] with ([Cancel c] ++ [RTake id; RDeliver]). rewrite run_app.
+  change (run (x_s x) [Cancel c]) with (do_step (x_s x) (Cancel c)).
+  destruct (p_cancel (x_s x) c id K Ew) as [G1 U1]. set (s1 := do_step (x_s x) (Cancel c)) in *.
+  assert (I1 : inv s1) by apply inv_do_step, (m_inv k p x M).
+  assert (R1 : s_rd s1 = RAlive) by (destruct G1 as (_&g&_); congruence).
+  rewrite (late_response_noop s1 c id RCancelled I1 R1 (proj1 U1)).
+  apply (sim_upd k p _ x c (PFin true [OCancelled]) _ (CDone id RCancelled) M); try assumption.
+  - apply sp_like_cs.
+  - exists id, RCancelled. split; [reflexivity | now left].
+Qed.
